@@ -507,7 +507,179 @@ class FlipComparisons(ast.NodeTransformer):
         return node
 
 
-def equivalent_variants():
+class MicroEdits(ast.NodeTransformer):
+    """a bundle of micro edits applied everywhere: `x += e` -> `x = x + e` (plain names), `while len(x):` / `if len(x) > 0` -> truthiness,
+    `not a and not b` -> `not (a or b)`, `while True:`-free `x = x` no-ops are not added"""
+
+    def visit_AugAssign(self, node):
+        self.generic_visit(node)
+        if isinstance(node.target, ast.Name) and isinstance(node.op, (ast.Add, ast.Sub)):
+            return ast.Assign(targets=[ast.Name(id=node.target.id, ctx=ast.Store())],
+                              value=ast.BinOp(left=ast.Name(id=node.target.id, ctx=ast.Load()), op=node.op, right=node.value), type_comment=None)
+        return node
+
+    def visit_BoolOp(self, node):
+        self.generic_visit(node)
+        if isinstance(node.op, ast.And) and len(node.values) >= 2 and all(isinstance(v, ast.UnaryOp) and isinstance(v.op, ast.Not) for v in node.values):
+            return ast.UnaryOp(op=ast.Not(), operand=ast.BoolOp(op=ast.Or(), values=[v.operand for v in node.values]))
+        return node
+
+    def _truthy(self, test):
+        # len(x) -> x ; len(x) > 0 -> x ; len(x) != 0 -> x   (only in test position)
+        if isinstance(test, ast.Call) and isinstance(test.func, ast.Name) and test.func.id == 'len' and len(test.args) == 1 and isinstance(test.args[0], ast.Name):
+            return test.args[0]
+        if isinstance(test, ast.Compare) and len(test.ops) == 1 and isinstance(test.ops[0], (ast.Gt, ast.NotEq)) and isinstance(test.comparators[0], ast.Constant) \
+                and test.comparators[0].value == 0 and isinstance(test.left, ast.Call) and isinstance(test.left.func, ast.Name) and test.left.func.id == 'len' \
+                and len(test.left.args) == 1 and isinstance(test.left.args[0], ast.Name):
+            return test.left.args[0]
+        return test
+
+    def visit_While(self, node):
+        self.generic_visit(node)
+        node.test = self._truthy(node.test)
+        return node
+
+    def visit_If(self, node):
+        self.generic_visit(node)
+        node.test = self._truthy(node.test)
+        return node
+
+
+class ExplainingLocals(ast.NodeTransformer):
+    """`return <call>` -> `_result = <call>; return _result` in every non-generator function (a redundant local for the returned value)"""
+
+    def visit_FunctionDef(self, node):
+        self.generic_visit(node)
+        if any(isinstance(x, (ast.Yield, ast.YieldFrom)) for x in ast.walk(node)):
+            return node
+        node.body = self._fix(node.body)
+        return node
+
+    def _fix(self, body):
+        out = []
+        for s_ in body:
+            for fld in ('body', 'orelse', 'finalbody'):
+                sub = getattr(s_, fld, None)
+                if isinstance(sub, list) and sub and isinstance(sub[0], ast.stmt) and not isinstance(s_, (ast.FunctionDef, ast.ClassDef)):
+                    setattr(s_, fld, self._fix(sub))
+            if isinstance(s_, ast.Return) and isinstance(s_.value, ast.Call):
+                out.append(ast.Assign(targets=[ast.Name(id='result_value', ctx=ast.Store())], value=s_.value, type_comment=None))
+                out.append(ast.Return(value=ast.Name(id='result_value', ctx=ast.Load())))
+            else:
+                out.append(s_)
+        return out
+
+
+class AliasAttributes(ast.NodeTransformer):
+    """in every non-generator method, an attribute `self.<a>` read at least twice and never stored becomes a local alias bound at the
+    top of the function"""
+
+    def visit_FunctionDef(self, node):
+        self.generic_visit(node)
+        if any(isinstance(x, (ast.Yield, ast.YieldFrom)) for x in ast.walk(node)) or not node.args.args or node.args.args[0].arg != 'self':
+            return node
+        if node.name == '__init__':
+            return node
+        loads, stores = {}, set()
+        for x in ast.walk(node):
+            if isinstance(x, ast.Attribute) and isinstance(x.value, ast.Name) and x.value.id == 'self':
+                if isinstance(x.ctx, ast.Load):
+                    loads.setdefault(x.attr, []).append(x)
+                else:
+                    stores.add(x.attr)
+        # attributes used as call targets (methods) are left alone
+        called = {c.func.attr for c in ast.walk(node) if isinstance(c, ast.Call) and isinstance(c.func, ast.Attribute) and isinstance(c.func.value, ast.Name)
+                  and c.func.value.id == 'self'}
+        new = []
+        for attr, ls in sorted(loads.items()):
+            if len(ls) >= 2 and attr not in stores and attr not in called and not attr.startswith('__'):
+                alias = 'the_' + attr
+                for l in ls:
+                    l.__class__ = ast.Name
+                    l.__dict__.clear()
+                    l.id, l.ctx = alias, ast.Load()
+                new.append(ast.Assign(targets=[ast.Name(id=alias, ctx=ast.Store())],
+                                      value=ast.Attribute(value=ast.Name(id='self', ctx=ast.Load()), attr=attr, ctx=ast.Load()), type_comment=None))
+        if new:
+            k = 1 if (node.body and isinstance(node.body[0], ast.Expr) and isinstance(node.body[0].value, ast.Constant)) else 0
+            node.body[k:k] = new
+        return node
+
+
+class MergeAssignments(ast.NodeTransformer):
+    """two adjacent `name = <constant>` statements become one tuple assignment"""
+
+    def _fix(self, body):
+        out, i = [], 0
+        while i < len(body):
+            a = body[i]
+            b = body[i + 1] if i + 1 < len(body) else None
+
+            def simple(x):
+                return isinstance(x, ast.Assign) and len(x.targets) == 1 and isinstance(x.targets[0], ast.Name) and isinstance(x.value, ast.Constant)
+            if simple(a) and simple(b) and a.targets[0].id != b.targets[0].id:
+                out.append(ast.Assign(targets=[ast.Tuple(elts=[a.targets[0], b.targets[0]], ctx=ast.Store())], value=ast.Tuple(elts=[a.value, b.value], ctx=ast.Load()),
+                                      type_comment=None))
+                i += 2
+            else:
+                out.append(a)
+                i += 1
+        return out
+
+    def generic_visit(self, node):
+        super().generic_visit(node)
+        for fld in ('body', 'orelse', 'finalbody'):
+            sub = getattr(node, fld, None)
+            if isinstance(sub, list) and sub and isinstance(sub[0], ast.stmt) and not isinstance(node, ast.Module):
+                setattr(node, fld, self._fix(sub))
+        return node
+
+
+def _keywordify(repo):
+    import os
+    from .normalize import signatures, pick_signature
+    mods = {}
+    for dp, dn, fn in os.walk(os.path.join(repo, 'traph')):
+        for f in fn:
+            if f.endswith('.py'):
+                mods[os.path.join(dp, f)] = ast.parse(open(os.path.join(dp, f)).read())
+    sig = signatures(mods)
+
+    def kw(src):
+        t = ast.parse(src)
+        for c in ast.walk(t):
+            if not isinstance(c, ast.Call) or any(isinstance(a, ast.Starred) for a in c.args) or any(k.arg is None for k in c.keywords):
+                continue
+            name = c.func.attr if isinstance(c.func, ast.Attribute) else (c.func.id if isinstance(c.func, ast.Name) else None)
+            if name not in sig:
+                continue
+            ps = pick_signature(sig[name], c)
+            if ps is None or len(c.args) < 2:
+                continue
+            # keep the first argument positional, pass the others by keyword
+            extra = c.args[1:]
+            c.args = c.args[:1]
+            c.keywords = [ast.keyword(arg=ps[i + 1], value=a) for i, a in enumerate(extra)] + c.keywords
+        return ast.unparse(ast.fix_missing_locations(t)) + '\n'
+    return kw
+
+
+def equivalent_variants(repo='/repo'):
+    def alias(src):
+        t = AliasAttributes().visit(ast.parse(src))
+        return ast.unparse(ast.fix_missing_locations(t)) + '\n'
+
+    def merge(src):
+        t = MergeAssignments().visit(ast.parse(src))
+        return ast.unparse(ast.fix_missing_locations(t)) + '\n'
+
+    def micro(src):
+        t = MicroEdits().visit(ast.parse(src))
+        return ast.unparse(ast.fix_missing_locations(t)) + '\n'
+
+    def explain(src):
+        t = ExplainingLocals().visit(ast.parse(src))
+        return ast.unparse(ast.fix_missing_locations(t)) + '\n'
     def regen(src):
         return ast.unparse(ast.parse(src)) + '\n'
 
@@ -529,4 +701,9 @@ def equivalent_variants():
             ('flip the operands of every comparison (a < b -> b > a)', flip),
             ('regenerate every module from its AST (reformat, comments dropped)', regen),
             ('rename every local variable of every function', rename),
-            ('`if C: continue; rest` -> `if not C: rest` in every loop', invert)]
+            ('`if C: continue; rest` -> `if not C: rest` in every loop', invert),
+            ('micro edits everywhere: `x += e` -> `x = x + e`, `len(x) > 0` -> `x`, `not a and not b` -> `not (a or b)`', micro),
+            ('a redundant local for every returned call result', explain),
+            ('local aliases for attributes of self read twice or more (non-generator methods)', alias),
+            ('adjacent constant assignments merged into tuple assignments', merge),
+            ('every argument after the first passed by keyword in calls of package functions', _keywordify(repo))]
